@@ -85,6 +85,96 @@ pub fn pump<TI: Copy, TO: Copy>(w: WriteStream<TI>, block: &mut dyn Block, out: 
     Ok(got)
 }
 
+/// Like `pump`, with random write sizes and random partial drains (the block sees its input in pieces
+/// and a nearly full output).
+pub fn pump_rand<TI: Copy, TO: Copy>(rng: &mut Rng, w: WriteStream<TI>, block: &mut dyn Block, out: &ReadStream<TO>, input: &[TI]) -> Result<Vec<TO>, String> {
+    let mut w = Some(w);
+    let mut pos = 0;
+    let mut got = Vec::new();
+    let mut idle = 0;
+    for _round in 0..(input.len() * 8 + 2000) {
+        let mut progress = false;
+        if let Some(ws) = &w {
+            if pos < input.len() {
+                let mut wb = ws.write_buf().map_err(|e| e.to_string())?;
+                let n = wb.len().min(input.len() - pos).min(rng.range(0, 300));
+                wb.slice()[..n].copy_from_slice(&input[pos..pos + n]);
+                wb.produce(n, &[]);
+                pos += n;
+                progress |= n > 0;
+            }
+        }
+        if pos == input.len() && w.is_some() && idle >= 1 {
+            w = None;
+            progress = true;
+        }
+        for _ in 0..rng.range(1, 3) {
+            match block.work().map_err(|e| e.to_string())? {
+                BlockRet::Again => progress = true,
+                _ => break,
+            }
+        }
+        {
+            let (rb, _tags) = out.read_buf().map_err(|e| e.to_string())?;
+            // mostly drain little (output stays nearly full), sometimes everything; everything once the input is gone
+            let n = if w.is_none() || rng.chance(1, 4) { rb.len() } else { rb.len().min(rng.range(0, 40)) };
+            got.extend_from_slice(&rb.slice()[..n]);
+            rb.consume(n);
+            progress |= n > 0;
+        }
+        if progress {
+            idle = 0;
+        } else {
+            idle += 1;
+            if idle > 3 && w.is_none() {
+                break;
+            }
+        }
+    }
+    Ok(got)
+}
+
+/// `FftStream`: whole frames of `size` samples, each the forward DFT of the corresponding input frame.
+fn fftstream_check(rng: &mut Rng) -> String {
+    let size = *rng.pick(&[1usize, 2, 4, 8, 16, 32, 64, 100]);
+    let len = rng.range(0, 6 * size + 700);
+    let seed = rng.next() >> 40;
+    let id = format!("!dsp fftstream size={size} len={len} seed={seed}");
+    let mut r2 = Rng::new(seed);
+    let sig: Vec<Complex> = (0..len).map(|_| Complex::new(r2.below(17) as f32 - 8.0, r2.below(17) as f32 - 8.0)).collect();
+    let r = quiet(|| -> Result<(), String> {
+        let (w, r) = new_stream::<Complex>();
+        let (mut b, o) = FftStream::new(r, size);
+        let out = pump_rand(&mut r2, w, &mut b, &o, &sig)?;
+        let frames = len / size;
+        if out.len() != frames * size {
+            return Err(format!("{} samples out, want {} whole frames = {}", out.len(), frames, frames * size));
+        }
+        for f in 0..frames {
+            for k in 0..size {
+                let (mut re, mut im) = (0.0f64, 0.0f64);
+                for n in 0..size {
+                    let ang = -2.0 * std::f64::consts::PI * (k * n % size) as f64 / size as f64;
+                    let x = sig[f * size + n];
+                    re += x.re as f64 * ang.cos() - x.im as f64 * ang.sin();
+                    im += x.re as f64 * ang.sin() + x.im as f64 * ang.cos();
+                }
+                let y = out[f * size + k];
+                let tol = 1e-3 * (size as f64) * 12.0 + 1e-3;
+                if !close(y.re as f64, re, tol) || !close(y.im as f64, im, tol) {
+                    return Err(format!("frame {f} bin {k}: {y}, DFT of the input frame: ({re}, {im})"));
+                }
+            }
+        }
+        Ok(())
+    });
+    match r {
+        Ok(Ok(())) => format!("{id}\tpass"),
+        Ok(Err(e)) => format!("{id}\tFAIL {e}"),
+        Err(p) => format!("{id}\tFAIL panic: {p}"),
+    }
+}
+
 /// Exact engine: cyclic convolution in integer arithmetic (inputs must be integer valued).
 pub struct ExactEngine {
     taps: Vec<(i64, i64)>,
@@ -320,11 +410,22 @@ fn quad_check(rng: &mut Rng) -> String {
     // phases with increments in (-pi, pi), random amplitude
     let mut ph = 0.0f64;
     let mut incs = vec![];
+    // gaps of exact zeros (a gated / zero-padded stream): zero[n] = sample n is exactly 0
+    let mut zero = vec![false; len];
+    let mut gap_left = 0usize;
     let sig: Vec<Complex> = (0..len)
-        .map(|_| {
+        .map(|n| {
             let inc = ((r2.below(6001) as f64) - 3000.0) / 1000.0;
             ph += inc;
             incs.push(inc);
+            if gap_left == 0 && r2.chance(1, 40) {
+                gap_left = r2.range(1, 5);
+            }
+            if gap_left > 0 {
+                gap_left -= 1;
+                zero[n] = true;
+                return Complex::new(0.0, 0.0);
+            }
             let a = 0.1 + (r2.below(100) as f64) / 10.0;
             Complex::new((a * ph.cos()) as f32, (a * ph.sin()) as f32)
         })
@@ -342,6 +443,15 @@ fn quad_check(rng: &mut Rng) -> String {
             return Err(format!("first output {}", out[0]));
         }
         for n in 1..len {
+            if zero[n] || zero[n - 1] {
+                // x[n] * conj(x[n-1]) is a (signed) zero: atan2 of signed zeros is 0 or +-pi, nothing else
+                let a = (out[n] as f64 / gain as f64).abs();
+                if !(close(a, 0.0, 1e-6) || close(a, std::f64::consts::PI, 1e-5)) {
+                    return Err(format!("output {n} = {} next to an exactly zero sample: neither 0 nor +-gain*pi", out[n]));
+                }
+                continue;
+            }
+            // phase advance over the samples (zero samples carry no phase; the step is from n-1 to n)
             let want = gain as f64 * incs[n];
             if !close(out[n] as f64, want, 2e-3 * gain as f64) {
                 return Err(format!("output {n} = {}, gain * phase step = {want}", out[n]));
@@ -519,6 +629,7 @@ pub fn run(args: &[String]) -> Vec<String> {
         out.push(hilbert_check(&mut rng));
         out.push(quad_check(&mut rng));
         out.push(engine_check(&mut rng));
+        out.push(fftstream_check(&mut rng));
     }
     for _ in 0..(cases / 2).max(4) {
         out.push(fft_vs_fir(&mut rng));
